@@ -243,11 +243,11 @@ impl<'a> UserModel<'a> {
 //@spec
     ensures r.is_err() ==> same_state(old(self), final(self)), r.is_ok() ==> one_entry(old(self), final(self)),
 //@rewrite `) -> Result<(), String> {` => `) -> (r: Result<(), String>) {`
-//@rewrite `for column in column_start..=column_end {` => `let mut __i = column_start; while __i <= column_end { let column = __i; __i += 1;`
+//@forwhile 1
 //@loop 1
-            invariant column_start <= __i, column_start <= column_end ==> __i <= column_end + 1,
+            invariant column_start <= __column, column_start <= column_end ==> __column <= column_end + 1,
                 self.model.has_sheet(sheet), self.history == old(self).history, self.send_queue == old(self).send_queue,
-            decreases column_end + 1 - __i
+            decreases column_end + 1 - __column
 //@end
 //@fn base/src/user_model/common.rs UserModel::set_rows_height
 //@attr
@@ -255,11 +255,11 @@ impl<'a> UserModel<'a> {
 //@spec
     ensures r.is_err() ==> same_state(old(self), final(self)), r.is_ok() ==> one_entry(old(self), final(self)),
 //@rewrite `) -> Result<(), String> {` => `) -> (r: Result<(), String>) {`
-//@rewrite `for row in row_start..=row_end {` => `let mut __i = row_start; while __i <= row_end { let row = __i; __i += 1;`
+//@forwhile 1
 //@loop 1
-            invariant row_start <= __i, row_start <= row_end ==> __i <= row_end + 1,
+            invariant row_start <= __row, row_start <= row_end ==> __row <= row_end + 1,
                 self.model.has_sheet(sheet), self.history == old(self).history, self.send_queue == old(self).send_queue,
-            decreases row_end + 1 - __i
+            decreases row_end + 1 - __row
 //@end
 }
 
